@@ -19,7 +19,8 @@ def run(tier, seed):
     pj = [(zs, cpu, sh, 0, "fifo") for zs in pats if len(zs) >= 2 for cpu in (1, 2) for sh in ((0, 1) if len(set(zs)) == 1 else (0,))]
     vj = [(zs, 0) for zs in pats]
     rep.bounds = {"multiproof API": "n <= 3 openings over %s: polynomials, indices, claimed values, commitments, proof object, IPAConfig (SRS, Q, weight tables) snapshotted and compared after the call" % (S,),
-                  "other entry points": "decoders (C16 evidence), transcript label/message buffers (C14), MSM/MultiExp scalar slices (C05, C09), group-operation operands and package-level Generator/Identity (C08) carry the same write-monitor obligations in their own checks",
+                  "scalar decoders": "SetBytes / SetBytesLE / SetBytesLECanonical / SetBigInt with inputs of 1, 31, 32, 33, 40 bytes: caller's byte slice and big.Int compared before/after",
+                  "other entry points": " transcript label/message buffers (C14), MSM/MultiExp scalar slices (C05, C09), group-operation operands and package-level Generator/Identity (C08) carry the same write-monitor obligations in their own checks",
                   "outside": "stubs are pure as declared; history independence is the inductive consequence (no call changes shared state)"}
     rep.assumptions = ["write monitor: every protected cell equals its snapshot (solver-decided per cell)", "BatchNormalize summarised as value-preserving (C19)"]
     run_jobs(rep, c01.job_grouping, gj, name=lambda a: "grouping %s" % (a,), on_result=on)
@@ -38,8 +39,20 @@ def run(tier, seed):
         run_jobs(rep, c14.job, seqs, name=lambda a: a[0], on_result=on14)
     except Exception as e:  # noqa
         rep.inconclusive_group("transcript buffers", str(e)[:300])
+    # scalar decoders: caller's byte slice / big.Int unchanged
+    from checks import c16
+    if c16.load(rep):
+        dj = [(h, {"n": n}) for h in ("VerifC16SetBytes", "VerifC16SetBytesLE", "VerifC16SetBytesLECanonical", "VerifC16SetBigInt") for n in (1, 31, 32, 33, 40)]
+        c16.run_decoders(rep, dj)
     return rep.finish(explanation="frame conditions on every API harness: after the call every protected cell (configuration, tables, caller slices and pointed-to values) equals its snapshot.")
 
 
 def replay(path):
+    d = json.load(open(path))
+    if "VerifC16" in d.get("entry", ""):
+        from checks import c16
+        return c16.replay(path)
+    if "VerifC14" in d.get("entry", ""):
+        from checks import c14
+        return c14.replay(path)
     return c01.replay(path)
